@@ -4,7 +4,7 @@
    C10's print_message, followed by a line feed).
 
    Part 1 (C10's models): a message printed with range compression on (the default
-   options) whose values are in C10's [goodc] fragment is read back - by
+   options) whose values are in C10's [goodc0] fragment is read back - by
    rtosc_count_printed_arg_vals_of_msg and rtosc_scan_message - also when MORE TEXT
    FOLLOWS the line feed: nothing, or the next message.  The scanner stops in front of
    the '/' of the next line.  (C10's own theorems speak about a text that ends with
@@ -132,7 +132,7 @@ Section Msg.
 Variables dec2f dec2d : list Z -> Z.
 
 Theorem message_reads_tl o addr vs text w :
-  compress o = true -> good_addr addr -> Forall goodc vs -> Z.of_nat (length vs) < 2 ^ 31 ->
+  compress o = true -> good_addr addr -> Forall goodc0 vs -> Z.of_nat (length vs) < 2 ^ 31 ->
   print_message o addr vs 0 = Some (text, w) ->
   exists slots,
     expand slots = Some vs /\ (exists sfx, text = addr ++ sfx) /\
@@ -164,7 +164,10 @@ Proof.
       destruct Htl as [->|[r ->]]; [reflexivity|].
       rewrite skip_comments_ws_no by lia. reflexivity.
     + reflexivity.
-  - apply (print_loop_iseq dec2f dec2d o Hon) in El; try assumption; try lia; try discriminate.
+  - assert (Hz0 : zchoice 0 0) by (split; left; reflexivity).
+    assert (Hg' : Forall (goodc o 0 0) (v :: vs'))
+      by (eapply Forall_impl; [|exact Hg]; intros a Ha; left; exact Ha).
+    apply (print_loop_iseq dec2f dec2d o Hon 0 0 Hz0) in El; try assumption; try lia; try discriminate.
     destruct El as (its & sfx & -> & -> & Hseq & Horig & _).
     assert (Hne : its <> []) by (intros ->; cbn in Horig; discriminate).
     destruct (iseq_from_iseq dec2f dec2d _ _ _ _ Hseq Hne) as (sepz & T & -> & HL & Hsep).
